@@ -19,3 +19,4 @@ import Proofs.Gen
 #print axioms Xsel.C04.num_to_str_reads_back
 #print axioms Xsel.C04.reads_back_special
 #print axioms Xsel.Gen.builtins_agree
+#print axioms Xsel.Gen.builtins_table_agree
